@@ -243,7 +243,10 @@ func (e *Engine) healthyOp(s *actorState) (Op, bool) {
 		}
 		return Op{Kind: "next"}, true
 	}
-	if a.st == "refused" && !a.Internal {
+	if a.st == "refused" {
+		if a.Internal {
+			return Op{}, false
+		}
 		return Op{Kind: "exit", N: 1}, true
 	}
 	if !a.Registered {
@@ -515,6 +518,24 @@ func (e *Engine) doOp(s *actorState, op Op, scripted bool) {
 			hdr["Lambda-Extension-Function-Error-Type"] = "X.Y"
 		}
 		a.Raw(method, path, hdr, nil)
+	case "truncated-response": // sends half of the body of a /response for the current id, then the process dies
+		id := e.resolveID(a, op.Arg)
+		body := e.respBody(s, op)
+		if len(body) < 4 {
+			body = []byte("truncated-body-0123456789")
+		}
+		e.r.NextStep()
+		a.Cur = a.Conn.StartPlan(a.Who, "POST", rtBase+"/invocation/"+id+"/response", nil, body, len(body)/2)
+		a.Cur.Tag = "rt-truncated"
+		a.Calls = append(a.Calls, a.Cur)
+		e.r.Settle()
+		e.r.Fault("truncated-body")
+		a.Cur.Resume(false)
+		e.r.Settle()
+		if a.P.Alive {
+			e.w.Sup.Die(a.P, op.N)
+			e.armEvent(a.P)
+		}
 	case "stall":
 		s.readyAt = e.r.Now() + op.D
 		e.r.Fault("stall")
